@@ -37,3 +37,12 @@ Print Assumptions C12_waitgroup_nonnegative.
 Theorem C12_caller_objects_not_written : gen_deep_writes = [].
 Proof. reflexivity. Qed.
 Print Assumptions C12_caller_objects_not_written.
+
+(* every call of wg.Add in the regenerated table is made by the acceptor with the mutex held - the premise under which the
+   interleaving model's WaitGroup protocol (C12_waitgroup_protocol) describes the code *)
+Theorem C12_waitgroup_add_sites : forall a, In a gen_accesses -> wg_add_site_ok a = true.
+Proof.
+  assert (H: forallb wg_add_site_ok gen_accesses = true) by (vm_compute; reflexivity).
+  intros a Ha. rewrite forallb_forall in H. exact (H a Ha).
+Qed.
+Print Assumptions C12_waitgroup_add_sites.
